@@ -57,6 +57,8 @@ def cast(v, d):
         elif isinstance(v, bool):
             v = int(v)
         elif isinstance(v, SReal):
+            if v.i is True:
+                return v        # integer-valued real standing for an integer (over-approximated domain)
             v = mkint(it(v))
         elif isinstance(v, Fraction):
             v = int(v)          # trunc toward zero
@@ -81,7 +83,7 @@ def cast(v, d):
             return v
         if isinstance(v, (SInt, SBool)):
             t, n, i = S.rparts(v)
-            return SReal(t, n, i)
+            return SReal(t, n, i, S.ipart(v))
         return cfrac(v)
     raise HarnessError("cast to dtype %s" % d)
 
